@@ -198,11 +198,12 @@ class _Rename(ast.NodeTransformer):
 
 
 class Inliner:
-    def __init__(self, repo: Repo, keep: Iterable[str] = (), also: Iterable[str] = (), depth: int = 2):
+    def __init__(self, repo: Repo, keep: Iterable[str] = (), also: Iterable[str] = (), depth: int = 2, small_public: int = 0):
         self.repo = repo
         self.keep = set(keep)
         self.also = set(also)
         self.depth = depth
+        self.small_public = small_public  # also inline public repo functions of at most this many statements
         self.inlined: list[str] = []
 
     # -- resolution ---------------------------------------------------------------------------
@@ -211,7 +212,8 @@ class Inliner:
         name = fn.attr if isinstance(fn, ast.Attribute) else fn.id if isinstance(fn, ast.Name) else None
         if name is None or name in self.keep:
             return None
-        if not (name.startswith("_") and not name.startswith("__")) and name not in self.also:
+        private = name.startswith("_") and not name.startswith("__")
+        if not private and name not in self.also and not self.small_public:
             return None
         target: Optional[FuncInfo] = None
         if isinstance(fn, ast.Attribute) and isinstance(fn.value, ast.Name):
@@ -240,7 +242,13 @@ class Inliner:
                         return None  # closures capture variables: not inlined
                 cur = cur.parent
             target = f.module.functions.get(name)
+            if target is None:
+                r = self.repo.resolve_in(f.module, name)
+                if isinstance(r, FuncInfo):
+                    target = r
         if target is None or target.node is f.node:
+            return None
+        if not private and name not in self.also and len(_strip_doc(target.node.body)) > self.small_public:
             return None
         decs = target.decorators()
         if any(d not in ("staticmethod", "classmethod") for d in decs):
@@ -487,9 +495,9 @@ def propagate_aliases(fn: ast.AST) -> ast.AST:
 
 
 # ---------------------------------------------------------------------------------------------
-def normalize(repo: Repo, f: FuncInfo, keep: Iterable[str] = (), also: Iterable[str] = (), depth: int = 2, aliases: bool = True) -> ast.AST:
+def normalize(repo: Repo, f: FuncInfo, keep: Iterable[str] = (), also: Iterable[str] = (), depth: int = 2, aliases: bool = True, small_public: int = 0) -> ast.AST:
     """A deep copy of ``f.node`` with private helpers inlined and local aliases propagated."""
-    node = Inliner(repo, keep=keep, also=also, depth=depth).run(f)
+    node = Inliner(repo, keep=keep, also=also, depth=depth, small_public=small_public).run(f)
     if aliases:
         node = propagate_aliases(node)
     return node
@@ -524,3 +532,23 @@ class NFunc:
 
 def nfunc(repo: Repo, f: FuncInfo, **kw) -> NFunc:
     return NFunc(f, normalize(repo, f, **kw))
+
+
+_OPERATOR = {"add": ast.Add, "sub": ast.Sub, "mul": ast.Mult, "mod": ast.Mod, "truediv": ast.Div, "floordiv": ast.FloorDiv, "pow": ast.Pow}
+
+
+class _OperatorCalls(ast.NodeTransformer):
+    def visit_Call(self, node: ast.Call):
+        self.generic_visit(node)
+        f = node.func
+        if isinstance(f, ast.Attribute) and isinstance(f.value, ast.Name) and f.value.id == "operator" and f.attr in _OPERATOR and len(node.args) == 2 and not node.keywords:
+            return ast.copy_location(ast.BinOp(left=node.args[0], op=_OPERATOR[f.attr](), right=node.args[1]), node)
+        return node
+
+
+def desugar_operator_calls(node: ast.AST) -> ast.AST:
+    """``operator.add(a, b)`` -> ``a + b`` etc. (after a helper taking the operator as an argument
+    was inlined); in place."""
+    node = _OperatorCalls().visit(node)
+    ast.fix_missing_locations(node)
+    return node
